@@ -80,6 +80,15 @@ CLAIMED = {
          "TLC: all interleavings of 2 processes x 1 call (quick) / 2 x 2 (thorough). Real code: 24 (120) batches x 3 (8) rounds under -race, halt_on_error; ~2.5k (~40k) concurrent calls compared with their sequential results.",
          "Interleavings on the real code are sampled by the scheduler (no gated replay of individual TLC interleavings was built); the race detector only reports races that occur.",
          "DESIGN.md section 4 C05"),
+
+ "C19": ("TLA+ spec PHash (size guard as a total decision; quick-select + threshold + MSB-first bit assembly transcribed step by step; Hamming distance) model-checked by TLC (the `and` guard deviation violates GuardOK); every emitted record replayed on NewPHash64/64Alt/256/256Alt, MedianOfPixels*, Distance; plus storage-invariance (same picture at other origins / in larger backing images), constant images, repeatability; plus a numeric float64 DCT-II oracle outside the specification",
+         "PARTIAL by design: decided by the specification and replayed exhaustively: acceptance/rejection for 4 functions x 5 kinds x 121 sizes x nil x origin variants (error iff not exactly the required size, never a panic, never a hash); the selection/threshold/bit-order logic on all sequences of length 4, 6 (8) over 4 values incl. ties (MedianOfPixels exact, fixed-size and float32 variants <= upper median); Hamming distance on boundary one-bit patterns, identity, complement, 3000 seeded dense pairs with symmetry and triangle inequality. History independence is C04's.",
+         "NOT decided by the specification (no floating point in TLC): agreement of the coefficients with a DCT-II and tau-closeness of the two implementations; the harness checks 'bit set above the upper median / cleared below the lower median outside a margin' numerically for RGBA/NRGBA/Gray pictures only.",
+         "DESIGN.md section 4 C19"),
+ "C20": ("TLA+ spec YCbCr (integer index model of the portable and the vector loop nests and of the dispatcher; SameIdx/InBounds/Exits/RefInBounds for all (x,y) of every geometry; the `always` dispatch deviation violates SameIdx) model-checked by TLC; every geometry laid out byte for byte in guarded backing arrays and converted by transforms32.ImageToGray and transforms.Rgb2GrayFast; per-pixel luminance vs. the pixel at that coordinate and vs. the portable conversion, guard zones, independence from bytes around the planes, worker death",
+         "For all 6 subsampling ratios x widths {64,256} x origins x luma/chroma stride paddings (144 quick / 540 thorough geometries x seeded plane contents): luminance within 2.0 of the value of the pixel at the same coordinate (float32 dispatcher and float64 path) and of the portable conversion; no write outside the destination, no modification of or dependence on bytes around the planes; no crash.",
+         "The vector loop carries no hooks (assembly): binding is black-box with index-revealing layouts. The <= 2.0 tolerance is a numeric check of the harness. Only linux/amd64 with AVX2 exercises the vector path (evidence records whether it ran).",
+         "DESIGN.md section 4 C20"),
 }
 NOT_APPLICABLE = {
  "C18": "Bit-for-bit equality of AVX and Go float32 DCT kernels and their error bound against the real DCT-II are IEEE-754 statements over 2^(32*64) inputs; TLA+/TLC has no floating point and the kernels have no state machine to specify (DESIGN.md section 5).",
